@@ -107,7 +107,7 @@ SizeSafe(o, p, c) ==                                                           \
 CloneCheap(o, p, c) ==                                                         \* C08
   (c.op \in CloneOps /\ c.cls = "ok") =>
      LET src == o.hd[c.g]  cp == p.hd[T(c)] IN
-     /\ c.dA = 0 /\ c.dR = 0
+     /\ c.dA = 0 /\ c.dR = 0 /\ c.xA = 0        \* xA: requests to the global allocator behind the buffer allocator's back
      /\ cp.k # "D" /\ cp.text = src.text /\ p.hd[c.g].text = src.text
      /\ src.k \in {"H", "S"} => (cp.pc = src.pc /\ cp.pid = src.pid)
      /\ src.k = "I" => cp.pc = "self"
@@ -115,22 +115,22 @@ CloneCheap(o, p, c) ==                                                         \
 CtorStorage(p, c, a) ==                                                        \* C09
   (c.op \in TextCtors /\ c.cls = "ok") =>
      LET n == Len(a.txt[T(c)])  r == p.hd[T(c)] IN
-     IF n <= MaxInl THEN r.k # "H" /\ ~r.heap /\ c.dA = 0 /\ c.dR = 0
-     ELSE r.heap /\ c.dA = 1 /\ c.dR = 0 /\ r.cap = n
+     IF n <= MaxInl THEN r.k # "H" /\ ~r.heap /\ c.dA = 0 /\ c.dR = 0 /\ c.xA = 0
+     ELSE r.heap /\ c.dA = 1 /\ c.dR = 0 /\ c.xA = 0 /\ r.cap = n
 InlineEdit(o, p, c) ==                                                         \* C09
   (c.op \in EditOps /\ o.hd[T(c)].k = "I" /\ p.hd[T(c)].k # "D" /\ p.hd[T(c)].len <= MaxInl) =>
-     (c.dA + c.dR = 0 /\ p.hd[T(c)].k # "H" /\ ~p.hd[T(c)].heap)
+     (c.dA + c.dR + c.xA = 0 /\ p.hd[T(c)].k # "H" /\ ~p.hd[T(c)].heap)
 
 StaticBorrow(o, p, c) ==                                                       \* C10
   /\ (c.op = "from_static" /\ c.cls = "ok") =>
-        /\ c.dA + c.dR = 0
+        /\ c.dA + c.dR + c.xA = 0
         /\ ~p.hd[T(c)].heap
         /\ p.hd[T(c)].len > MaxInl => (p.hd[T(c)].pc = "static" /\ p.hd[T(c)].pid = c.g)
   /\ (c.op \in {"pop", "truncate", "clear"} /\ o.hd[T(c)].k = "S") =>
-        /\ c.dA + c.dR = 0
+        /\ c.dA + c.dR + c.xA = 0
         /\ p.hd[T(c)].len > MaxInl => (p.hd[T(c)].pc = o.hd[T(c)].pc /\ p.hd[T(c)].pid = o.hd[T(c)].pid)
   /\ (c.op \in CloneOps /\ c.cls = "ok" /\ o.hd[c.g].k = "S") =>
-        /\ c.dA + c.dR = 0
+        /\ c.dA + c.dR + c.xA = 0
         /\ p.hd[T(c)].len > MaxInl => (p.hd[T(c)].pc = "static" /\ p.hd[T(c)].pid = o.hd[c.g].pid)
   \* a call rejected for its index neither writes nor grows: the handle keeps borrowing, nothing is copied
   /\ (c.cls = "panic" /\ c.msg = "index" /\ c.op \notin Ctors /\ o.hd[T(c)].k = "S") =>
@@ -144,7 +144,11 @@ ReservePost(o, p, c) ==                                                        \
      /\ p.hd[T(c)].k \in {"I", "H"} /\ (p.hd[T(c)].k = "H" => p.hd[T(c)].rc = 1)      \* for every n, 0 included
 Exclusive(o, h) == o.hd[h].k = "I" \/ (o.hd[h].k = "H" /\ o.hd[h].rc = 1)
 NoReallocInCap(o, p, c) ==                                                     \* C11
-  (c.op \in AppendOps /\ c.cls = "ok" /\ Exclusive(o, T(c)) /\ o.hd[T(c)].len + Len(c.s) <= o.hd[T(c)].cap) =>
+  /\ (c.op \in AppendOps /\ c.cls = "ok" /\ Exclusive(o, T(c)) /\ o.hd[T(c)].len + Len(c.s) <= o.hd[T(c)].cap) =>
+     (c.dA + c.dR + c.xA = 0 /\ p.hd[T(c)].pc = o.hd[T(c)].pc /\ p.hd[T(c)].pid = o.hd[T(c)].pid)
+  \* appending through an iterator: the items (and, for chars, the announced lower bound) fit the reported capacity
+  /\ (c.op = "extend" /\ c.cls = "ok" /\ Exclusive(o, T(c)) /\ ~PIsSym(c.n)
+        /\ o.hd[T(c)].len + Max(Len(Concat(c.x)), IF c.v = "chars" THEN c.n ELSE 0) <= o.hd[T(c)].cap) =>
      (c.dA + c.dR = 0 /\ p.hd[T(c)].pc = o.hd[T(c)].pc /\ p.hd[T(c)].pid = o.hd[T(c)].pid)
 
 Growth(o, p, c) ==                                                             \* C12
